@@ -36,6 +36,8 @@ type Prog struct {
 	known       map[string]bool
 	delegators  map[*ssa.Function][]*ssa.Function
 	Inlined     *InlineStats
+	// Anchors: every function a rule looked up by name during this run
+	Anchors map[*ssa.Function]bool
 }
 
 // Load loads ./... of dir. overlay maps absolute file names to replacement
@@ -138,6 +140,21 @@ func (p *Prog) ExtPkg(path string) *packages.Package { return p.All[path] }
 // "Name", "(*T).Name", "T.Name" (either receiver form), "Name$1" (anonymous,
 // positional — avoid; prefer Anon* helpers).
 func (p *Prog) Func(rel, name string) *ssa.Function {
+	f := p.lookupFunc(rel, name)
+	if f != nil {
+		if p.Anchors == nil {
+			p.Anchors = map[*ssa.Function]bool{}
+		}
+		outer := f
+		for outer.Parent() != nil {
+			outer = outer.Parent()
+		}
+		p.Anchors[outer] = true
+	}
+	return f
+}
+
+func (p *Prog) lookupFunc(rel, name string) *ssa.Function {
 	sp := p.Pkg(rel)
 	if sp == nil {
 		return nil
